@@ -158,7 +158,7 @@ CHECKS['C03'] = dict(
 )
 
 CHECKS['C04'] = dict(
-    text=('Proof over a model of the parent-side control logic (is_alive / wait / terminate / close of thread, process, persistent process and '
+    text=('The bodies of ThreadWorker.wait/terminate and ProcessWorker.wait/terminate are regenerated on every run as lists of control instructions (Gen/Ctrl.v: which blocking primitive is called with which bound, in which order, under which condition) and interpreted by Ctrl/Model.v, so the theorems below are re-proved over what the code says now (an unbounded wait for the acknowledgement translates and breaks C04_bounded; refutation theorems keep both regressions). Proof over a model of the parent-side control logic (is_alive / wait / terminate / close of thread, process, persistent process and '
           'persistent thread workers) against a child of any class (cooperative, swallowing, blocked in C, interpreter lock held, stopped): for every state and '
           'operation a call issues at most four blocking primitives, each bounded by the caller\'s finite timeout; the returned boolean equals the '
           'child\'s absence at return (an invariant of every history); on a dead or never-run worker every call returns True at once and changes '
